@@ -80,8 +80,41 @@ func NewEventSerializer(parentLogger logger.Logger, schema base.LogSchema, confi
 
 // SerializeRecord serializes log records into streams
 func (packer *eventSerializer) SerializeRecord(record *base.LogRecord) base.LogStream {
-	length := packer.encodeRecord(record, packer.buffer)
-	return packer.buffer[:length]
+	buffer := packer.buffer
+	if maxLength := packer.maxEncodedLength(record); maxLength >= len(buffer) {
+		// The record cannot be guaranteed to fit the preallocated buffer, e.g. huge header fields or fields multiplied
+		// by transforms and rewrites. encodeRecord doesn't check bounds: use a one-off buffer which is large enough.
+		buffer = make([]byte, maxLength+1)
+	}
+	length := packer.encodeRecord(record, buffer)
+	return buffer[:length]
+}
+
+// maxEncodedLength returns an upper bound of the length of the given record after encoding by encodeRecord.
+//
+// It must be kept in sync with encodeRecord. Every msgpack header takes at most 5 bytes.
+func (packer *eventSerializer) maxEncodedLength(record *base.LogRecord) int {
+	fields := record.Fields[0:len(packer.fieldMasks)]
+
+	// root-array header, timestamp, root-map header, "environment" key, environment-map header
+	maxLength := 1 + 10 + 3 + 12 + 3
+
+	for i, value := range fields {
+		if packer.fieldMasks[i] || len(value) == 0 {
+			continue
+		}
+		maxLength += len(packer.serializedFieldKeys[i]) + 5
+		if headRewriter := packer.fieldRewriters[i]; headRewriter != nil {
+			maxLength += headRewriter.MaxFieldLength(value, record)
+		} else {
+			maxLength += len(value)
+		}
+	}
+
+	for i, loc := range packer.envFieldLocators {
+		maxLength += len(packer.serializedEnvFieldKeys[i]) + 5 + len(loc.Get(fields))
+	}
+	return maxLength
 }
 
 // encodeRecord encodes the given log record to buffer and returns the end position.
